@@ -20,7 +20,7 @@ pub fn prop() -> Prop {
     Prop {
         id: "C10",
         level: "exploration",
-        rule: "every closed program P of the arith, arith-global, ctrl and heap slices (no function definitions) whose meaning the model defines, together with ALL of its variants under: (w) moving the whole program into a function body `functie() { P }()` (globals become locals, fused opcodes get selected); (v) each integer-literal operand replaced by a fresh variable holding it, one at a time and all at once; (m) each `c op x` / `x op c` between an integer literal and a variable mirrored (converse comparison, same commutative operator; not - / %); (p) each of a set of statements prepended that mention the same and other literals (shifting and merging constant-pool entries); (q) for each string literal s of P: `stel zz = s; P; print(zz)` must print s unchanged after P's own output. Oracle: all variants agree with P on value, output and error kind (no reference model involved in the comparison). Non-trivial = P has at least one variant whose bytecode uses a different set of opcode kinds; distinct = distinct texts",
+        rule: "every closed program P of the arith, arith-global, ctrl and heap slices (no function definitions) whose meaning the model defines, together with ALL of its variants under: (w) moving the whole program into a function body `functie() { P }()` (globals become locals, fused opcodes get selected); (v) each integer-literal operand replaced by a fresh variable holding it, one at a time and all at once; (m) each `c op x` / `x op c` between an integer literal and a variable mirrored (converse comparison, same commutative operator; not - / %); (p) each of a set of statements prepended that mention the same and other literals (shifting and merging constant-pool entries); (q) for each string literal s of P: `stel zz = s; P; print(zz)` must print s unchanged after P's own output. Also directed bases: three-operand chains `x op1 c1 op2 c2` / `c1 op1 x op2 c2` over floats and over integers at the range ends. Oracle: all variants agree with P on value, output and error kind (no reference model involved in the comparison). Non-trivial = P has at least one variant whose bytecode uses a different set of opcode kinds; distinct = distinct texts",
         assumptions: &["programs the model marks unspecified (U1...) are not used as bases, because top-level and function-local variables are allowed to differ there", "P itself is checked against the model by C01"],
         run,
         replay,
@@ -241,8 +241,50 @@ pub fn check_program(sh: &mut Shard, p: &[Stmt]) {
     }
 }
 
+/// Directed bases: three-operand chains over a variable and two literals (the shape compilers fold), over
+/// floats (nothing may be regrouped) and integers (range ends, huge constants).
+fn chain_bases() -> Vec<Vec<Stmt>> {
+    let mut out = Vec::new();
+    let fops = [Operator::Add, Operator::Subtract, Operator::Multiply, Operator::Divide];
+    for x in [0.1f64, 0.7, 1e16, -0.3] {
+        for c1 in [0.1f64, 0.2, 0.3, 1.5, 1e16] {
+            for c2 in [0.1f64, 0.2, 0.3, 1.5, 1e16] {
+                for op1 in &fops {
+                    for op2 in &fops {
+                        out.push(vec![let_("x", flt(x)), es(infix(infix(id("x"), op1.clone(), flt(c1)), op2.clone(), flt(c2)))]);
+                        out.push(vec![let_("x", flt(x)), es(infix(infix(flt(c1), op1.clone(), id("x")), op2.clone(), flt(c2)))]);
+                    }
+                }
+            }
+        }
+    }
+    let max = (1i64 << 60) - 1;
+    let iops = [Operator::Add, Operator::Subtract, Operator::Multiply, Operator::Divide, Operator::Modulo];
+    for x in [max, -max, 7, -7, 1 << 31] {
+        for c1 in [1i64, 3, 10, 1 << 30, 1 << 32, max] {
+            for c2 in [1i64, 3, 10, 1 << 30, 1 << 32, max] {
+                for op1 in &iops {
+                    for op2 in &iops {
+                        out.push(vec![let_("x", int_lit(x)), es(infix(infix(id("x"), op1.clone(), int(c1)), op2.clone(), int(c2)))]);
+                        out.push(vec![let_("x", int_lit(x)), es(infix(infix(int(c1), op1.clone(), id("x")), op2.clone(), int(c2)))]);
+                    }
+                }
+            }
+        }
+    }
+    out
+}
+
 fn run(sh: &mut Shard) {
     let tier = sh.cfg.tier;
+    for prog in chain_bases() {
+        if !sh.mine() {
+            continue;
+        }
+        sh.begin(&|| printer::program(&prog));
+        sh.count("family:chain-bases");
+        check_program(sh, &prog);
+    }
     // a literal evaluated again is pristine, whatever its earlier value went through
     for prog in crate::slices::literal_pristine_programs() {
         if !sh.mine() {
